@@ -30,8 +30,11 @@ func (e *Enc) applyEffect(st *State, ef *effect) {
 	// reference that existed before the call; callee-allocated objects live in an id region of their own.
 	if len(ef.fresh) > 0 {
 		e.callRegion++
-		lo := fmt.Sprintf("(+ |alloc!0| %d)", 1000000000*e.callRegion)
-		hi := fmt.Sprintf("(+ |alloc!0| %d)", 1000000000*(e.callRegion+1))
+		lo := e.calleeWatermark(st)
+		hi := e.fresh("cw", "Int")
+		e.assume(app(">", hi, lo))
+		arrSorts["G|cw"] = "Int"
+		st.m["G|cw"] = hi
 		inRegion := func(r string) string {
 			return fmt.Sprintf("(and ((_ is obj) %s) (< %s (oid %s)) (<= (oid %s) %s))", r, lo, r, r, hi)
 		}
@@ -79,7 +82,7 @@ func (e *Enc) call(in *ssa.Call, st *State) {
 			}
 			e.callSiteHooks(in, "invoke:"+c.Method.Name(), c.Method.Name(), append([]ssa.Value{c.Value}, c.Args...), argv, st)
 		}
-		if key := ifaceMethodKey(c.Method); e.db.pureIface[key] {
+		if key := ifaceMethodKey(c.Method); e.db.isPureIface(c.Method) {
 			e.note("interface method %s is assumed pure (uninterpreted function of receiver and arguments)", key)
 			rv := e.ufApply("iface."+key, append([]ssa.Value{c.Value}, c.Args...), in.Type())
 			if e.db.nonnilIface[key] && len(rv.c) == 1 {
@@ -108,6 +111,10 @@ func (e *Enc) call(in *ssa.Call, st *State) {
 		rv := e.freshVal("invoke."+c.Method.Name(), in.Type())
 		e.existing(st, rv)
 		e.set(in, rv)
+		{
+			site := "invoke:" + c.Method.Name()
+			e.siteResults[fmt.Sprintf("%s#%d", site, e.lastOrd[site])] = rv
+		}
 		return
 	}
 	switch callee := c.Value.(type) {
@@ -172,7 +179,7 @@ func (e *Enc) call(in *ssa.Call, st *State) {
 		if pn := callbackName(c.Value); pn != "" && e.con != nil {
 			for _, en := range e.con.Callback[pn] {
 				if e.active(en) {
-					env := &Env{e: e, st: st, old: &pre, vars: e.params}
+					env := &Env{e: e, st: st, old: &pre, vars: e.params, at: in}
 					e.assumeHere(env.formula(en.E))
 				}
 			}
@@ -182,6 +189,13 @@ func (e *Enc) call(in *ssa.Call, st *State) {
 
 func (e *Enc) builtin(in *ssa.Call, b *ssa.Builtin, st *State) {
 	args := in.Common().Args
+	if e.con != nil && (b.Name() == "append" || b.Name() == "delete") {
+		var argv []*Val
+		for _, a := range args {
+			argv = append(argv, e.val(a))
+		}
+		e.callSiteHooks(in, "builtin:"+b.Name(), b.Name(), args, argv, st)
+	}
 	switch b.Name() {
 	case "len":
 		x := e.val(args[0])
@@ -421,6 +435,11 @@ func (e *Enc) staticCallV(in *ssa.Call, callee *ssa.Function, args []ssa.Value, 
 		ef := &effect{names: map[string]bool{}}
 		e.instrEffect(in, ef)
 		e.applyEffect(st, ef)
+	} else if rt := e.db.recvOnlyType(callee); rt != nil {
+		e.note("methods of %s are assumed to modify only their receiver", typeKey(rt))
+		names := map[string]bool{}
+		namesOfType(rt, names)
+		e.applyEffect(st, &effect{names: names})
 	} else if ef := e.effectOf(callee); ef.all && con != nil && len(con.Preserves) > 0 {
 		e.note("call to %s: assumed to preserve %v (its callbacks are user code)", fname(callee), con.Preserves)
 		e.havocAllPreserving(st, con.Preserves)
@@ -555,7 +574,7 @@ func pureFieldOf(v ssa.Value) string {
 	return structKey(st) + "." + s.Field(fa.Field).Name()
 }
 
-var ufPkgs = map[string]bool{"strings": true, "path/filepath": true, "path": true}
+var ufPkgs = map[string]bool{"strings": true, "path/filepath": true, "path": true, "reflect": true}
 var ufIfacePkgs = map[string]bool{"io/fs": true}
 
 func pkgPathOf(fn *ssa.Function) string {
@@ -616,7 +635,7 @@ func (e *Enc) wfUF(v *Val) {
 	}
 	e.declared[key] = true
 	e.wellFormedVal(v)
-	// objects handed out by an uninterpreted dependency function are not among those a LATER callee allocates
+	// objects handed out by an uninterpreted dependency function are not among those a callee allocates
 	for k, l := range leaves(v.typ) {
 		if l.sort == "Ref" && k < len(v.c) {
 			for _, r := range []string{v.c[k], owner(v.c[k]), owner(owner(v.c[k]))} {
